@@ -19,7 +19,12 @@ RULE = (
     "TABLE / CREATE INDEX text is parsed. op1: sequences of SQLCompiler._truncated_identifier calls "
     "(literal/anonymous/composite names over a 2-letter alphabet, 3 classes, label_length -2..30/None, "
     "preset counters up to 16^5). op2: SELECTs with up to 300 (thorough 600) long labels and binds "
-    "compiled on 5 dialects with label_length 6/10/30/None and small values. non-trivial = the name "
+    "compiled on 5 dialects with label_length 6/10/30/None and small values. op3: the same conv() names "
+    "rendered 2-5 times as index / constraint names on ONE dialect object whose three limits are changed "
+    "between the renderings (each rendering also compared with a fresh dialect). op4: create_engine on a "
+    "sqlite dialect subclass that detects its identifier limit on first connect x label_length on both "
+    "sides of the class default and of the detected limit x user max_identifier_length, then a SELECT with "
+    "long labels compiled through the engine. non-trivial = the name "
     "reaches the limit (op0), or some name is truncated / anonymous (op1, op2)"
 )
 TRUSTED = [
@@ -50,6 +55,8 @@ ANCHORS = [
     ("lib/sqlalchemy/sql/compiler.py", "SQLCompiler.visit_bindparam"),
     ("lib/sqlalchemy/sql/compiler.py", "SQLCompiler.visit_label"),
     ("lib/sqlalchemy/sql/compiler.py", "DDLCompiler._prepared_index_name"),
+    ("lib/sqlalchemy/engine/default.py", "DefaultDialect.initialize"),
+    ("lib/sqlalchemy/engine/default.py", "DefaultDialect._check_max_identifier_length"),
     ("lib/sqlalchemy/sql/naming.py", "ConventionDict"),
     ("lib/sqlalchemy/sql/naming.py", "_get_convention"),
     ("lib/sqlalchemy/sql/naming.py", "_constraint_name_for_table"),
@@ -752,10 +759,73 @@ def gen_stmt(rng, tier, tbl, known):
     return cases
 
 
+LIMITS = [18, 22, 30, 63, 64, 128, 255]
+
+
+def gen_multi(rng, tier):
+    """op3: one long-lived dialect, limits changed between renderings of the same names"""
+    cases = []
+    n = 1500 if tier == "thorough" else 140
+    for _ in range(n):
+        names = []
+        for _k in range(rng.randint(1, 2)):
+            nm = mkname(rng, rng.choice([25, 40, 66, 70, 100, 130, 150, 260]), "n")
+            if nm not in names:
+                names.append(nm)
+        steps = []
+        shared = rng.random() < 0.5  # index and constraint limits differ on one configuration
+        base = [rng.choice(LIMITS + [9999]), rng.choice([None] + LIMITS), rng.choice([None] + LIMITS)]
+        for _k in range(rng.randint(2, 5)):
+            if shared:
+                d = list(base)
+            else:
+                d = [rng.choice(LIMITS), rng.choice([None, None] + LIMITS), rng.choice([None, None] + LIMITS)]
+            steps.append([d, rng.randint(0, 1), rng.randrange(len(names))])
+        md5s = [[ord(ch) for ch in hashlib.md5(nm.encode("utf-8")).hexdigest()] for nm in names]
+        cases.append({"in": [3, [rle(nm) for nm in names], md5s, steps], "kind": "multi"})
+    return cases
+
+
+def gen_engine(rng, tier):
+    """op4: identifier limit detected on first connect"""
+    cases = []
+    n = 1500 if tier == "thorough" else 160
+    for _ in range(n):
+        cls = rng.choice([128, 128, 64, 40])
+        det = rng.choice([None, 30, 30, 64, 20, 100, 0])
+        user = rng.choice([None, None, None, None, 25, 40, 90])
+        pivots = [cls] + ([det] if det else []) + ([user] if user else [])
+        p = rng.choice(pivots)
+        ll = rng.choice([None, 12, p - 1, p, p + 1, p + 1, (p + cls) // 2, rng.randint(8, 140)])
+        if ll is not None and ll < 6:
+            ll = 6
+        ncols = rng.randint(1, 3)
+        cols = []
+        for _j in range(ncols):
+            c = mkname(rng, rng.choice([3, 20, 28, 40, 60, 120]))
+            while c in cols:
+                c = mkname(rng, len(c) + 1)
+            cols.append(c)
+        tn = mkname(rng, rng.choice([2, 10, 25, 50]), "t")
+        items, used = [], set()
+        for _j in range(rng.randint(1, 4)):
+            j = rng.randrange(ncols)
+            if rng.random() < 0.5 and j not in used:
+                used.add(j)
+                items.append([0, j])
+            else:
+                items.append([1, j])
+        whs = [[0, rng.randrange(ncols)] for _j in range(rng.randint(0, 3))]
+        cases.append({"in": [4, cls, user, ll, det, rle(tn), 1 if rng.random() < 0.6 else 0,
+                             [rle(c) for c in cols], items, whs], "kind": "engine"})
+    return cases
+
+
 def gen_cases(rng, tier):
     tbl = _table()
     known = known_ids()
-    cases = gen_ddl(rng, tier, tbl, known) + gen_lowlevel(rng, tier) + gen_stmt(rng, tier, tbl, known)
+    cases = (gen_ddl(rng, tier, tbl, known) + gen_lowlevel(rng, tier) + gen_stmt(rng, tier, tbl, known)
+             + gen_multi(rng, tier) + gen_engine(rng, tier))
     # spread the expensive cases over the shards (cases are evaluated 400 per file, files in parallel)
     large = [c for c in cases if c["kind"] == "stmt_large"]
     rest = [c for c in cases if c["kind"] != "stmt_large"]
@@ -777,6 +847,11 @@ def nontrivial(c):
         d = i[1]
         mx = py_or(d[1] if i[2] else d[2], d[0])
         return len(res[1]) >= mx - 1
+    if i[0] == 3:
+        lens = [len(unrle(n)) for n in i[1]]
+        return any(py_or(d[1] if ix else d[2], d[0]) < lens[k] for d, ix, k in i[3])
+    if i[0] == 4:
+        return i[3] != [] or i[4] != []
     if i[0] == 1:
         return any(any(s[0] == 1 for s in n) or sum(len(unrle(s[1])) for s in n if s[0] == 0) > 0 for _, n in i[4])
     eff = py_or(i[1], i[2])
@@ -886,6 +961,10 @@ def impl(c):
         return _run_ddl(c)
     if cin[0] == 1:
         return _run_lowlevel(cin)
+    if cin[0] == 3:
+        return _run_multi(cin)
+    if cin[0] == 4:
+        return _run_engine(cin)
     return _run_stmt(c)
 
 
@@ -974,47 +1053,145 @@ def _run_lowlevel(cin):
     return a
 
 
-def _run_stmt(c):
+def _run_multi(cin):
+    from sqlalchemy import Column, Index, Integer, MetaData, Table, UniqueConstraint, exc
+    from sqlalchemy.engine import default
+    from sqlalchemy.schema import CreateIndex, CreateTable, conv
+
+    _, names, _md5s, steps = cin
+    names = [unrle(n) for n in names]
+    objs = []
+    for k, nm in enumerate(names):
+        m = MetaData(naming_convention={"ck": "ck_unused"})
+        ti = Table("ti%d" % k, m, Column("a", Integer))
+        ix = Index(conv(nm), ti.c.a)
+        tu = Table("tu%d" % k, m, Column("b", Integer), UniqueConstraint("b", name=conv(nm)))
+        objs.append((ix, tu))
+
+    def setlim(d, lim):
+        d.max_identifier_length = lim[0]
+        d.max_index_name_length = None if lim[1] == [] else lim[1]
+        d.max_constraint_name_length = None if lim[2] == [] else lim[2]
+
+    def render(d, is_index, k):
+        try:
+            if is_index:
+                sql = str(CreateIndex(objs[k][0]).compile(dialect=d))
+                return [0, rle(_ident_after(sql, "INDEX ", d))]
+            sql = str(CreateTable(objs[k][1]).compile(dialect=d))
+            return [0, rle(_ident_after(sql, "CONSTRAINT ", d))]
+        except exc.IdentifierError:
+            return [2]
+
+    live = default.DefaultDialect()  # one long-lived dialect / IdentifierPreparer
+    out = []
+    for lim, is_index, k in steps:
+        setlim(live, lim)
+        got = render(live, is_index, k)
+        fresh = default.DefaultDialect()
+        setlim(fresh, lim)
+        want = render(fresh, is_index, k)
+        out.append(got if got == want else [9, got, want])
+    return out
+
+
+_DETECT = []
+
+
+def _detect_cls():
+    """a SQLite dialect that, like the Oracle one, learns its identifier limit on the first connection"""
+    if not _DETECT:
+        from sqlalchemy.dialects import registry
+        from sqlalchemy.dialects.sqlite.pysqlite import SQLiteDialect_pysqlite
+
+        class DetectingDialect(SQLiteDialect_pysqlite):
+            max_identifier_length = 128
+            supports_statement_cache = True
+            server_limit = None
+
+            def _check_max_identifier_length(self, connection):
+                return self.server_limit
+
+        globals()["DetectingDialect"] = DetectingDialect
+        registry.register("sqlite.c21detect", __name__, "DetectingDialect")
+        _DETECT.append(DetectingDialect)
+    return _DETECT[0]
+
+
+def _run_engine(cin):
+    from sqlalchemy import create_engine, exc
+
+    _, cls, user, ll, det, tn, aliased, cols, items, whs = cin
+    none = lambda x: None if x == [] else x
+    D = _detect_cls()
+
+    def once():
+        D.max_identifier_length = cls
+        D.server_limit = none(det)
+        kw = {}
+        if none(ll) is not None:
+            kw["label_length"] = ll
+        if none(user) is not None:
+            kw["max_identifier_length"] = user
+        eng = create_engine("sqlite+c21detect://", **kw)
+        try:
+            try:
+                with eng.connect():
+                    pass
+            except exc.ArgumentError:
+                return [5]
+            r = _compile_stmt(eng.dialect, unrle(tn), aliased, [unrle(x) for x in cols], items, whs)
+            return r + [eng.dialect.max_identifier_length] if r[0] == 0 else r
+        finally:
+            eng.dispose()
+
+    a, b = once(), once()
+    if a != b:
+        return [9, a, b]
+    return a
+
+
+def _compile_stmt(d, tn, aliased, cols, items, whs):
     from sqlalchemy import LABEL_STYLE_TABLENAME_PLUS_COL, bindparam, column, exc, select, table
 
+    t = table(tn, *[column(x) for x in cols])
+    src = t.alias() if aliased else t
+    sel = []
+    for k, j in items:
+        col = src.c[cols[j]]
+        sel.append(col if k == 0 else col.label(None))
+    binds, crit = [], []
+    for w in whs:
+        if w[0] == 0:
+            e = src.c[cols[w[1]]] == 5
+            binds.append(e.right)
+        else:
+            bp = bindparam(unrle(w[1]), 1, unique=bool(w[2]))
+            e = src.c[cols[0]] == bp
+            binds.append(bp)
+        crit.append(e)
+    stmt = select(*sel).where(*crit).set_label_style(LABEL_STYLE_TABLENAME_PLUS_COL)
+    try:
+        comp = stmt.compile(dialect=d)
+    except exc.CompileError:
+        return [4]
+    names = [rc[0] for rc in comp._result_columns]
+    al = [_ident_after(str(comp), "SELECT ", d)] if aliased else []
+    bn = [comp.bind_names[b] for b in binds]
+    return [0, [rle(str(x)) for x in names], [rle(str(x)) for x in al], [rle(str(x)) for x in bn]]
+
+
+def _run_stmt(c):
     _, ll, maxid, tn, aliased, cols, items, whs = c["in"]
     ll = None if ll == [] else ll
     did = c.get("dialect", 0)
-    tn = unrle(tn)
-    cols = [unrle(x) for x in cols]
 
     def once():
         kw = {"label_length": ll}
         d = _dialect(did, **kw)
         if d.max_identifier_length != maxid:
             d = _dialect(did, max_identifier_length=maxid, **kw)
-        t = table(tn, *[column(x) for x in cols])
-        src = t.alias() if aliased else t
-        sel = []
-        for k, j in items:
-            col = src.c[cols[j]]
-            sel.append(col if k == 0 else col.label(None))
-        binds = []
-        crit = []
-        for w in whs:
-            if w[0] == 0:
-                e = src.c[cols[w[1]]] == 5
-                binds.append(e.right)
-            else:
-                bp = bindparam(unrle(w[1]), 1, unique=bool(w[2]))
-                e = src.c[cols[0]] == bp
-                binds.append(bp)
-            crit.append(e)
-        stmt = select(*sel).where(*crit).set_label_style(LABEL_STYLE_TABLENAME_PLUS_COL)
-        try:
-            comp = stmt.compile(dialect=d)
-        except exc.CompileError:
-            return [4]
-        names = [rc[0] for rc in comp._result_columns]
-        sql = str(comp)
-        al = [_ident_after(sql, "SELECT ", d)] if aliased else []
-        bn = [comp.bind_names[b] for b in binds]
-        return [0, [rle(str(x)) for x in names], [rle(str(x)) for x in al], [rle(str(x)) for x in bn]]
+        return _compile_stmt(d, unrle(tn), aliased, [unrle(x) for x in cols], items, whs)
 
     a, b = once(), once()
     if a != b:
@@ -1027,9 +1204,9 @@ def _run_stmt(c):
 # ------------------------------------------------------------------------------------------------
 def oracle(c, obs):
     cin = c["in"]
-    if obs and obs[0] == 9:
+    if cin[0] != 3 and obs and obs[0] == 9:
         return "not deterministic: compiling again gave a different name: %s" % (obs[1:],)
-    if obs and obs[0] == 8:
+    if cin[0] != 3 and obs and obs[0] == 8:
         return None  # harness/translator disagreement about the limits; reported by the correspondence
     if cin[0] == 0:
         if obs[0] != 0:
@@ -1042,6 +1219,35 @@ def oracle(c, obs):
                 "index" if cin[2] else "constraint", len(name), mx)
         if len(name) > d[0]:
             return "rendered name has %d characters, max_identifier_length is %d" % (len(name), d[0])
+        return None
+    if cin[0] == 3:
+        lens = [len(unrle(n)) for n in cin[1]]
+        for (d, ix, k), o in zip(cin[3], obs):
+            lim = py_or(None if (d[1] if ix else d[2]) == [] else (d[1] if ix else d[2]), d[0])
+            if o[0] == 9:
+                return ("the %s name rendered under limit %d on a dialect that rendered other limits before "
+                        "differs from what a fresh dialect renders: %r vs %r"
+                        % ("index" if ix else "constraint", lim, unrle(o[1][1]) if o[1][0] == 0 else o[1],
+                           unrle(o[2][1]) if o[2][0] == 0 else o[2]))
+            if o[0] == 0 and len(unrle(o[1])) > lim and lim >= 8:
+                return "rendered %s name has %d characters, the limit in force is %d" % (
+                    "index" if ix else "constraint", len(unrle(o[1])), lim)
+        return None
+    if cin[0] == 4:
+        if obs[0] != 0:
+            return None  # ArgumentError on first connect (or a documented compile error) is allowed
+        m = obs[4]
+        ll = None if cin[3] == [] else cin[3]
+        eff = py_or(ll, m)
+        whs = cin[9]
+        names = [unrle(x) for x in obs[1]] + [unrle(x) for x in obs[2]] + [unrle(x) for x in obs[3]]
+        if len({json.dumps(x) for x in obs[1]}) != len(obs[1]):
+            return "result columns share a name"
+        if m >= 6:
+            for nm in names:
+                if len(nm) > m:
+                    return ("the engine started (label_length=%s) and rendered %r: %d characters, the dialect's "
+                            "max_identifier_length after connecting is %d" % (ll, nm, len(nm), m))
         return None
     if cin[0] == 1:
         _, ll, maxid, ctrs, reqs = cin
